@@ -3,15 +3,36 @@
    attributes, Table 26) and section 15 (character sets, Table 36 national option sub-sets).
 
    FormatRow(codes, nat) maps the 40 seven-bit codes of a row to 40 cells
-   [u, fg, bg, fl, cn, sz]: character (ISO 10646 value as libzvbi documents it in format.h:
+   [u, fg, bg, fl, cn, sz, bx]: character (ISO 10646 value as libzvbi documents it in format.h:
    G1 block mosaics are U+EE00 + code, contiguous form with bit 5 set, separated form with bit 5
-   cleared), foreground and background colour 0..7, flash, conceal, size (0 normal, 2 double
-   height).  LowerRow gives the row below a row that contains double height characters.
+   cleared), foreground and background colour 0..7, flash, conceal, size and boxed.  Size as
+   libzvbi's vbi_size names it: 0 normal, 1 double width, 2 double height, 3 double size, 4 the
+   position covered by the right half of a double width / double size character, and in the row
+   below (LowerRow): 6 lower half of a double height character, 7 lower left and 5 lower right part
+   of a double size character.
 
-   Covered: alpha and mosaic colours, flash/steady, conceal, contiguous/separated mosaics,
-   hold/release mosaics, black/new background, normal/double height, national option sub-sets
-   English (0) and German (1).  Not covered (never generated): box codes, ESC, double width and
-   double size (they are Level 1.5/2.5 features in the decoder).                              *)
+   All 32 spacing attributes of Table 26:
+     Set-At     09 steady, 0C normal size, 18 conceal, 19 contiguous mosaics, 1A separated mosaics,
+                1C black background, 1D new background, 1E hold mosaics
+     Set-After  00-07 alpha colour, 08 flash, 0A end box, 0B start box, 0D double height,
+                0E double width, 0F double size, 10-17 mosaic colour, 1B ESC, 1F release mosaics
+   A spacing attribute is displayed as a space, or - in mosaics mode with hold mosaics in force - as
+   the held mosaic character: the most recent mosaic character (bit 5 set) of the row, in its
+   original contiguous / separated form; the held character is reset to space at the start of the
+   row, at a change of alphanumerics / mosaics mode (either way) and at a change of SIZE (normal,
+   double height, double width, double size: any change, by a Set-At or a Set-After code).
+   Start box / end box act when two of them are transmitted in succession, the box starts (ends)
+   between the two.  ESC switches between the default and the second G0 set of packets X/28 or M/29;
+   no such packet is transmitted here, both are the set the national option bits select.
+   Double width / double size: the character occupies its own and the next position; the code
+   transmitted for the covered position is not displayed but acts as attribute (so 0C in the covered
+   position ends the double width) and a mosaic there still becomes the held character ("the most
+   recent mosaics character ... on that row").  Double height and double size are not transmitted on
+   rows 23 and 24 (12.2), the checks place such rows on rows 1..22 only; a size attribute in column 39
+   governs nothing, and the transmitter returns to normal size before column 39 (a double width
+   character has no room there).
+
+   National option sub-sets English (0) and German (1). *)
 EXTENDS Naturals, Sequences
 
 \* Table 36: the 13 positions that depend on the national option sub-set
@@ -27,14 +48,22 @@ G0(c, nat) ==
 IsMosaic(c) == (c >= 32 /\ c <= 63) \/ (c >= 96 /\ c <= 127)
 Mosaic(c, sep) == IF sep THEN 60928 + c - 32 ELSE 60928 + c          \* 0xEE00
 
+Normal == 0  DoubleWidth == 1  DoubleHeight == 2  DoubleSize == 3  OverTop == 4
+OverBottom == 5  DoubleHeight2 == 6  DoubleSize2 == 7
+Wide(sz) == sz \in {DoubleWidth, DoubleSize}
+Tall(sz) == sz \in {DoubleHeight, DoubleSize}
+
 \* attribute state at the start of a row (12.2)
-S0 == [fg |-> 7, bg |-> 0, mos |-> FALSE, sep |-> FALSE, fl |-> FALSE, cn |-> FALSE, dh |-> FALSE,
-       hold |-> FALSE, held |-> 32]
+S0 == [fg |-> 7, bg |-> 0, mos |-> FALSE, sep |-> FALSE, fl |-> FALSE, cn |-> FALSE, sz |-> Normal,
+       hold |-> FALSE, held |-> 32, bx |-> FALSE]
+
+\* a change of size resets the held mosaic character
+Resize(s, sz) == IF s.sz = sz THEN s ELSE [s EXCEPT !.sz = sz, !.held = 32]
 
 \* effect of a spacing attribute that is Set-At (acts on its own cell already)
 SetAt(s, c) ==
   IF c = 9 THEN [s EXCEPT !.fl = FALSE]                                   \* steady
-  ELSE IF c = 12 THEN (IF s.dh THEN [s EXCEPT !.dh = FALSE, !.held = 32] ELSE s)   \* normal size
+  ELSE IF c = 12 THEN Resize(s, Normal)                                   \* normal size
   ELSE IF c = 24 THEN [s EXCEPT !.cn = TRUE]                              \* conceal
   ELSE IF c = 25 THEN [s EXCEPT !.sep = FALSE]                            \* contiguous mosaics
   ELSE IF c = 26 THEN [s EXCEPT !.sep = TRUE]                             \* separated mosaics
@@ -42,33 +71,53 @@ SetAt(s, c) ==
   ELSE IF c = 29 THEN [s EXCEPT !.bg = s.fg]                              \* new background
   ELSE IF c = 30 THEN [s EXCEPT !.hold = TRUE]                            \* hold mosaics
   ELSE s
-\* effect of a Set-After attribute (acts from the next cell on)
-SetAfter(s, c) ==
+\* effect of a Set-After attribute (acts from the next cell on); nxt = the code that follows (0 at the end of the row),
+\* last = the attribute stands in column 39
+SetAfter(s, c, nxt, last) ==
   IF c <= 7 THEN [s EXCEPT !.fg = c, !.cn = FALSE, !.mos = FALSE, !.held = IF s.mos THEN 32 ELSE s.held]
   ELSE IF c = 8 THEN [s EXCEPT !.fl = TRUE]
-  ELSE IF c = 13 THEN (IF s.dh THEN s ELSE [s EXCEPT !.dh = TRUE, !.held = 32])
+  ELSE IF c = 10 THEN (IF nxt = 10 THEN [s EXCEPT !.bx = FALSE] ELSE s)   \* end box
+  ELSE IF c = 11 THEN (IF nxt = 11 THEN [s EXCEPT !.bx = TRUE] ELSE s)    \* start box
+  ELSE IF c = 13 THEN Resize(s, DoubleHeight)
+  ELSE IF c = 14 THEN (IF last THEN s ELSE Resize(s, DoubleWidth))
+  ELSE IF c = 15 THEN (IF last THEN s ELSE Resize(s, DoubleSize))
   ELSE IF c >= 16 /\ c <= 23 THEN [s EXCEPT !.fg = c - 16, !.cn = FALSE, !.mos = TRUE, !.held = IF s.mos THEN s.held ELSE 32]
   ELSE IF c = 31 THEN [s EXCEPT !.hold = FALSE]
-  ELSE s
+  ELSE s                                                                  \* 27 ESC: no second G0 set designated
 
-Cell(s, u) == [u |-> u, fg |-> s.fg, bg |-> s.bg, fl |-> s.fl, cn |-> s.cn, sz |-> IF s.dh THEN 2 ELSE 0]
+Cell(s, u) == [u |-> u, fg |-> s.fg, bg |-> s.bg, fl |-> s.fl, cn |-> s.cn, sz |-> s.sz, bx |-> s.bx]
 
-RECURSIVE Fmt(_, _, _, _)
-Fmt(codes, nat, i, s) ==
+\* cov: this position is covered by the right half of the cell to its left (left)
+RECURSIVE Fmt(_, _, _, _, _, _)
+Fmt(codes, nat, i, s, cov, left) ==
   IF i > Len(codes) THEN <<>>
-  ELSE LET c == codes[i] IN
-       IF c < 32
-       THEN LET s1 == SetAt(s, c)
-                shown == IF s1.hold /\ s1.mos THEN s1.held ELSE 32
-            IN <<Cell(s1, shown)>> \o Fmt(codes, nat, i + 1, SetAfter(s1, c))
-       ELSE IF s.mos /\ IsMosaic(c)
-            THEN LET u == Mosaic(c, s.sep) IN <<Cell(s, u)>> \o Fmt(codes, nat, i + 1, [s EXCEPT !.held = u])
-            ELSE <<Cell(s, G0(c, nat))>> \o Fmt(codes, nat, i + 1, s)
+  ELSE LET c   == codes[i]
+           nxt == IF i < Len(codes) THEN codes[i + 1] ELSE 0
+           s1  == IF c < 32 THEN SetAt(s, c) ELSE s
+           mch == c >= 32 /\ s1.mos /\ IsMosaic(c)
+           u   == IF c < 32 THEN (IF s1.hold /\ s1.mos THEN s1.held ELSE 32)
+                  ELSE IF mch THEN Mosaic(c, s1.sep) ELSE G0(c, nat)
+           s2  == IF mch THEN [s1 EXCEPT !.held = u] ELSE s1
+           own == Cell(s2, u)
+           wide == ~cov /\ Wide(s2.sz) /\ i < Len(codes)
+           cell == IF cov THEN [left EXCEPT !.sz = OverTop]
+                   ELSE IF Wide(s2.sz) /\ ~wide THEN [own EXCEPT !.sz = Normal]     \* no room in the last column
+                   ELSE own
+           s3  == IF c < 32 THEN SetAfter(s2, c, nxt, i = Len(codes)) ELSE s2
+       IN <<cell>> \o Fmt(codes, nat, i + 1, s3, wide, own)
 
-FormatRow(codes, nat) == Fmt(codes, nat, 1, S0)
-HasDouble(codes, nat) == \E i \in 1..40 : FormatRow(codes, nat)[i].sz = 2
-\* the row below: lower halves under double height characters, spaces elsewhere
-LowerRow(codes, nat) == LET up == FormatRow(codes, nat) IN
-                        [i \in 1..40 |-> IF up[i].sz = 2 THEN [up[i] EXCEPT !.sz = 6]
-                                         ELSE [u |-> 32, fg |-> up[i].fg, bg |-> up[i].bg, fl |-> FALSE, cn |-> FALSE, sz |-> 0]]
+FormatRow(codes, nat) == Fmt(codes, nat, 1, S0, FALSE, Cell(S0, 32))
+\* (of a formatted row up) the row contains double height or double size characters: the row below is not displayed
+TallIn(up) == \E i \in 1..Len(up) : Tall(up[i].sz)
+\* the row contains any character or attribute space that is not of normal size
+SizedIn(up) == \E i \in 1..Len(up) : up[i].sz # Normal
+\* the row below: lower halves under double height / double size characters, spaces elsewhere
+LowerOf(up) ==
+  [i \in 1..Len(up) |-> IF up[i].sz = DoubleHeight THEN [up[i] EXCEPT !.sz = DoubleHeight2]
+                        ELSE IF up[i].sz = DoubleSize THEN [up[i] EXCEPT !.sz = DoubleSize2]
+                        ELSE IF up[i].sz = OverTop /\ i > 1 /\ up[i - 1].sz = DoubleSize THEN [up[i] EXCEPT !.sz = OverBottom]
+                        ELSE [u |-> 32, fg |-> up[i].fg, bg |-> up[i].bg, fl |-> FALSE, cn |-> FALSE, sz |-> Normal, bx |-> up[i].bx]]
+HasDouble(codes, nat) == TallIn(FormatRow(codes, nat))
+HasSize(codes, nat) == SizedIn(FormatRow(codes, nat))
+LowerRow(codes, nat) == LowerOf(FormatRow(codes, nat))
 =============================================================================
